@@ -264,9 +264,7 @@ def objAdd (s : State) (p : Id) (key : Key) (v : Option Id) (keyIsNew : Bool) : 
             else
               -- existing entry: `if (existing_value) json_object_put(existing_value); lh_entry_set_val(...)`
               -- (also when existing_value == val: the reference given replaces the one dropped)
-              if heapAddExPutsExisting ∧ heapAddExReturnsBeforeSet = 0 then
-                commit s p n (.obj (setKey kvs key v)) v old.toList
-              else .fault "json_object_object_add_ex: replace path changed (Generated/Structure)"
+              commit s p n (.obj (setKey kvs key v)) v old.toList
     | _ => .misuse "object_add: assert(type == object)"
 
 /-- json_object_object_del (void; reported as 0) -/
@@ -431,6 +429,82 @@ def deepCopy (s : State) (src : Id) (failAt : Option Nat) : Step (State × Res) 
       let c ← cpPut r.cp r.dst             -- `json_object_put(*dst); *dst = NULL;`
       pure (c.st, { ret := -1, dead := c.dead, cbs := c.cbs })
 
+/-! ### json_pointer_set, as far as ownership goes
+
+`path` is the list of reference tokens (already split at '/', the generator uses no `~`).  The walk
+over all but the last token borrows; the last token is a json_object_array_add / _put_idx /
+json_object_object_add on the node reached.  The empty pointer replaces the caller's root variable:
+`json_object_put(*obj); *obj = value;` (the caller keeps its reference to `value`, now through `*obj`). -/
+
+def isDigit (b : UInt8) : Bool := 48 ≤ b && b ≤ 57
+
+/-- is_valid_index: non-empty, decimal digits only, no leading zero unless the token is "0";
+strtoull saturates -/
+def validIndex (t : Bytes) : Option Nat :=
+  if t.isEmpty then none
+  else if !t.all isDigit then none
+  else if t.length > 1 && t.head? == some 48 then none
+  else
+    let v := t.foldl (fun acc b => acc * 10 + (b.toNat - 48)) 0
+    some (if v > SIZE_T_MAX then SIZE_T_MAX else v)
+
+/-- json_pointer_get_recursive over the leading tokens: `none` = -1 (ENOENT / EINVAL) -/
+def ptrWalk (h : Heap) : Option Id → List Bytes → Option (Option Id)
+  | cur, [] => some cur
+  | none, _ :: _ => none
+  | some i, t :: ts =>
+    match h.get? i with
+    | none => none
+    | some n =>
+      match n.body with
+      | .arr xs =>
+        match validIndex t with
+        | some idx => if idx < xs.length then ptrWalk h (xs.getD idx none) ts else none
+        | none => none
+      | .obj kvs =>
+        match findKey kvs t with
+        | some v => ptrWalk h v ts
+        | none => none
+      | .scalar _ => none
+
+/-- the container json_pointer_set stores into (the node reached by all but the last token) -/
+def ptrParent (s : State) (root : Id) (path : List Bytes) : Option Id :=
+  match path with
+  | [] => none
+  | _ => (ptrWalk s.heap (some root) path.dropLast).join
+
+def ptrSet (s : State) (root : Id) (path : List Bytes) (v : Option Id) : Step (State × Res) :=
+  match s.heap.get? root with
+  | none => .misuse "pointer_set: dead handle"
+  | some _ =>
+    match v with
+    | some j => if s.ext j = 0 then .misuse "pointer_set: value not owned by the caller" else go
+    | none => go
+where
+  go : Step (State × Res) :=
+    match path.getLast? with
+    | none =>
+      -- "" : json_object_put(*obj); *obj = value; return 0
+      match put s root with
+      | .ok (s', r) => .ok (s', { r with ret := 0 })
+      | .misuse why => .misuse why
+      | .fault why => .fault why
+    | some last =>
+      match ptrParent s root path with
+      | none => .ok (s, { ret := -1 })
+      | some p =>
+        match s.heap.get? p with
+        | none => .fault "pointer_set: walked into a freed node"
+        | some n =>
+          match n.body with
+          | .arr _ =>
+            if last = [45] then arrStore s p .add v                      -- "-"
+            else match validIndex last with
+              | some idx => arrStore s p (.put idx) v
+              | none => .ok (s, { ret := -1 })
+          | .obj _ => objAdd s p last v false
+          | .scalar _ => .ok (s, { ret := -1 })
+
 /-! ### operation language (shared with the harness) -/
 
 inductive Op where
@@ -446,6 +520,7 @@ inductive Op where
   | setUserdata (i : Id) (tok : Option Nat)
   | setSerializer (i : Id) (tok : Option Nat)
   | deepCopy (src : Id) (failAt : Option Nat)
+  | ptrSet (root : Id) (path : List Bytes) (v : Option Id)
   deriving Repr, DecidableEq
 
 /-- constructor as the harness performs it: json_object_new_*, then set_userdata(token = id) -/
@@ -471,6 +546,7 @@ def step (s : State) : Op → Step (State × Res)
   | .setUserdata i tok => setUserdata s i tok
   | .setSerializer i tok => setUserdata s i tok
   | .deepCopy src failAt => deepCopy s src failAt
+  | .ptrSet root path v => ptrSet s root path v
 
 def run (s : State) : List Op → Step (State × List Res)
   | [] => .ok (s, [])
